@@ -25,6 +25,7 @@ var families = map[string]func(*h.Run){
 	"C10": props.C10,
 	"C11": props.C11,
 	"C12": props.C12,
+	"C13": props.C13,
 	"C16": props.C16,
 	"C17": props.C17,
 	"C18": props.C18,
